@@ -272,8 +272,8 @@ class Dispatcher:
             moduleobj = self.secnode.get_module(modulename)
             if exportedname is not None:
                 pname = moduleobj.accessiblename2attr.get(exportedname, True)
-                if pname and pname not in moduleobj.accessibles:
-                    # what if we try to subscribe a command here ???
+                if pname and pname not in moduleobj.parameters:
+                    # only parameters have updates: a command can not be subscribed
                     raise NoSuchParameterError(f'Module {modulename!r} has no parameter {pname!r}')
                 modules = [(modulename, pname)]
             else:
